@@ -14,9 +14,9 @@
 # Unrepaired /repo: VIOLATION serialize_throws (lg_k 20, 14.25M items) and pseudo_phase_sliding until fixes/05_cpc_pseudo_phase_overflow.patch is applied.
 PROP = "C05"
 READY = True
-COQ_PROPS = ['Properties_C05', 'Regression_cpc']
+COQ_PROPS = ['Properties_C05']
 TRANSLATORS = ['gen_cpctables']
-EXTRA_OBLIGATIONS = {'Properties_C05': 210}   # finite vm_compute checks on the translated tables (coq/CpcCodecTables.v)
+EXTRA_OBLIGATIONS = {'Properties_C05': 142}   # finite vm_compute checks on the translated tables (coq/CpcCodecTables.v)
 RULE = ('operation scripts over cpc_sketch / cpc_union registers, lg_k 4..7 (quick) / 4..10 (thorough): (a) streams of real items '
         '(uint64 and strings, MurmurHash3 modelled in Coq and mirrored in the generator to aim the probes) crossing the flavor '
         'boundaries 3k/32, k/2, 27k/8 and the first window shifts; (b) raw row_col streams (private row_col_update) of several shapes '
@@ -278,28 +278,27 @@ def gen(rng, tier):
     lgs = [4, 5, 6, 7] if quick else [4, 5, 6, 7, 8, 9, 10]
     # (a) real items
     for lgk in lgs:
-        for rep in range(2 if quick else 3):
+        for rep in range(2):
             b = Builder(rng)
             n = rng.choice([3, 8, 12]) * (1 << lgk) if rep == 0 else rng.choice([40, 90]) * (1 << lgk)
-            n = min(n, 2500 if quick else 30000)
-            gen_stream(rng, b, lgk, n, seed=rng.choice([9001, 9001, 0, 77]))
+            n = min(n, 2500 if quick else 7000)
+            gen_stream(rng, b, lgk, n, seed=rng.choice([9001, 9001, 0, 77]), full_budget=(30 if lgk <= 8 else 8))
             add('items', b)
     # (b) raw coupons
     for lgk in lgs:
         k = 1 << lgk
-        full = lgk <= (5 if quick else 8)
-        shapes = ['fill', 'natural', 'late', 'holes', 'natural']
+        full = lgk <= (5 if quick else 6)
+        shapes = ['fill', 'natural', 'late', 'holes', 'natural'] if lgk <= 8 else ['natural']
         for shape in shapes:
             b = Builder(rng)
-            lim = 64 * k if full else (12 * k if quick else 20 * k)
-            if not quick and lgk >= 9: lim = 8 * k
-            gen_raw(rng, b, lgk, shape, lim, full_budget=(70 if full else 25))
+            lim = 64 * k if full else (12 * k if quick or lgk <= 7 else 5 * k)
+            gen_raw(rng, b, lgk, shape, lim, full_budget=(70 if full else (25 if lgk <= 8 else 6)))
             add('raw-' + shape, b)
     b = Builder(rng); gen_raw(rng, b, 4, 'fill', 64 * 16, overflow=True); add('raw-overflow', b)
     # (c) unions
-    for rep in range(14 if quick else 120):
+    for rep in range(14 if quick else 40):
         b = Builder(rng)
-        gen_union(rng, b, [4, 5, 6, 7] if quick or rep % 3 else [4, 6, 8, 9])
+        gen_union(rng, b, [4, 5, 6, 7] if quick or rep % 3 else [4, 6, 7, 8])
         add('union', b)
     # (d) row_col_from_two_hashes
     b = Builder(rng)
@@ -434,8 +433,8 @@ MANIFEST = dict(
                 'window_offset = determine_correct_offset(lg_k, C); every column below first_interesting_column is full (the speed filter drops nothing novel); the window '
                 'exists exactly from 3K/32 coupons on; one update preserves the invariant from ANY state satisfying it; a state rebuilt from a bit matrix (move_window and '
                 'the union\'s get_result_from_bit_matrix row loop) represents that matrix; (3) compression, second stage: compression_data.hpp is TRANSLATED on every run and '
-                '210 finite obligations are re-checked (code lengths, canonical values, completeness, prefix-freeness, decode(encode)=id and validate_decoding_table for the 22 '
-                'byte tables and the length-limited unary table, the 16 column permutations bijective with correct inverses); on top of them the bit-stream writer/reader with '
+                '142 finite obligations are re-checked (code lengths, canonical values, every one of the 4096 decoding slots written and valid, decode(encode)=id on all '
+                'extensions, prefix-freeness, for the 22 byte tables and the length-limited unary table; the 16 column permutations bijective with correct inverses); on top of them the bit-stream writer/reader with '
                 'its 11 / max(0,10-B) bits of padding, low_level_compress/uncompress_bytes, write/read_unary, low_level_compress/uncompress_pairs (x-delta Huffman, y-delta '
                 'Golomb), compress/uncompress_surprising_values and compress/uncompress_sliding_window are modelled and proved to round-trip for ALL inputs, never to over-read, '
                 'and to stay within safe_length_for_compressed_pair_buf / _window_buf; with 64-bit thresholds a SLIDING sketch always gets a phase < 16. '
